@@ -2900,7 +2900,10 @@ fn worker_main(args: &[String]) {
 			emit(json!({"t": "e", "id": id, "what": e}));
 		}
 		for f in &m.findings {
-			*agg.fsig_counts.entry(f.sig.clone()).or_insert(0) += 1;
+			*agg
+				.fsig_counts
+				.entry(format!("{}\u{1}{}\u{1}{}\u{1}{}", f.sig, dname, cname, f.stage))
+				.or_insert(0) += 1;
 			let better = match agg.best_len.get(&f.sig) {
 				None => true,
 				Some(l) => c.bytes.len() < *l,
@@ -3025,10 +3028,15 @@ impl Agg {
 				}
 				if let Some(c) = v.get("fsig").and_then(|x| x.as_object()) {
 					for (k, n) in c {
+						let parts: Vec<&str> = k.split('\u{1}').collect();
+						let fi = self.findings.entry(parts[0].to_string()).or_default();
 						if count_progress {
-							self.findings.entry(k.clone()).or_default().count += n.as_u64().unwrap_or(0);
-						} else {
-							self.findings.entry(k.clone()).or_default();
+							fi.count += n.as_u64().unwrap_or(0);
+						}
+						if parts.len() == 4 {
+							fi.decs.insert(parts[1].to_string());
+							fi.classes.insert(parts[2].to_string());
+							fi.stages.insert(parts[3].to_string());
 						}
 					}
 				}
@@ -3212,11 +3220,17 @@ struct Shard {
 	trace: bool,
 	got_final: bool,
 	last_death: Option<(Option<i32>, Option<i32>)>,
+	attributed: bool,
 }
 
 fn parent_main() {
 	let run = Run::from_env("C11", "exploration");
 	let t0 = Instant::now();
+	let incs = std::cell::RefCell::new(Vec::<String>::new());
+	let inc = |m: &str| {
+		run.inconclusive(m);
+		incs.borrow_mut().push(m.to_string());
+	};
 	let san = run
 		.args
 		.iter()
@@ -3277,7 +3291,7 @@ fn parent_main() {
 			.and_then(|v| v.as_array().map(|a| a.iter().filter_map(|x| x.as_u64()).collect()))
 			.unwrap_or_default();
 		if ids.is_empty() {
-			run.inconclusive("replay file has no case ids");
+			inc("replay file has no case ids");
 		}
 		for id in ids {
 			let (code, sig, err) = sp.run_ids(&[id], false, Some(&mut agg));
@@ -3295,12 +3309,13 @@ fn parent_main() {
 				trace: false,
 				got_final: false,
 				last_death: None,
+				attributed: false,
 			})
 			.collect();
 		for s in 0..NSHARDS as usize {
 			let c = sp.cmd(s as u64, 0, &[], None, false);
 			if let Err(e) = sp.start(s, c, tx.clone()) {
-				run.inconclusive(&e);
+				inc(&e);
 				shards[s].done = true;
 			}
 		}
@@ -3308,7 +3323,7 @@ fn parent_main() {
 			let msg = match rx.recv_timeout(Duration::from_secs(CASE_BUDGET_MS / 1000 + 60)) {
 				Ok(m) => m,
 				Err(_) => {
-					run.inconclusive("no message from any worker for too long; giving up on the remaining shards");
+					inc("no message from any worker for too long; giving up on the remaining shards");
 					explored_all = false;
 					break;
 				}
@@ -3335,7 +3350,7 @@ fn parent_main() {
 					let mut restart = false;
 					if code == Some(0) {
 						if !sh.got_final {
-							run.inconclusive(&format!("shard {} exited 0 without a final summary", s));
+							inc(&format!("shard {} exited 0 without a final summary", s));
 						}
 						if !sh.complete {
 							explored_all = false;
@@ -3364,7 +3379,7 @@ fn parent_main() {
 								restart = true;
 							}
 							None => {
-								run.inconclusive(&format!("shard {}: exit 86 without ALLOC-OVER-CAP marker: {}", s, tail(&err)));
+								inc(&format!("shard {}: exit 86 without ALLOC-OVER-CAP marker: {}", s, tail(&err)));
 								sh.done = true;
 								explored_all = false;
 							}
@@ -3379,7 +3394,7 @@ fn parent_main() {
 								restart = true;
 							}
 							None => {
-								run.inconclusive(&format!("shard {}: exit 87 without HANG marker", s));
+								inc(&format!("shard {}: exit 87 without HANG marker", s));
 								sh.done = true;
 								explored_all = false;
 							}
@@ -3390,10 +3405,11 @@ fn parent_main() {
 						if sh.trace {
 							match last_trace(&err) {
 								Some(id) => {
+									sh.attributed = true;
 									if sig.is_some() {
 										aborts.push((id, format!("signal {:?}", sig)));
 									} else {
-										run.inconclusive(&format!(
+										inc(&format!(
 											"worker failed (exit code {:?}) while running case {}: {}",
 											code, id, tail(&err)
 										));
@@ -3402,7 +3418,7 @@ fn parent_main() {
 									restart = true;
 								}
 								None => {
-									run.inconclusive(&format!("shard {}: worker died ({:?}/{:?}) before any case: {}", s, code, sig, tail(&err)));
+									inc(&format!("shard {}: worker died ({:?}/{:?}) before any case: {}", s, code, sig, tail(&err)));
 									sh.done = true;
 									explored_all = false;
 								}
@@ -3417,13 +3433,13 @@ fn parent_main() {
 						sh.restarts += 1;
 						sh.got_final = false;
 						if sh.restarts > 5000 || now_ms() > sp.deadline {
-							run.inconclusive(&format!("shard {}: restart/time budget exhausted at case {}", s, sh.next));
+							inc(&format!("shard {}: restart/time budget exhausted at case {}", s, sh.next));
 							sh.done = true;
 							explored_all = false;
 						} else {
 							let c = sp.cmd(s as u64, sh.next, &sh.skip, None, sh.trace);
 							if let Err(e) = sp.start(s, c, tx.clone()) {
-								run.inconclusive(&e);
+								inc(&e);
 								sh.done = true;
 								explored_all = false;
 							}
@@ -3433,7 +3449,7 @@ fn parent_main() {
 			}
 		}
 		for (s, sh) in shards.iter().enumerate() {
-			if sh.trace && sh.last_death.is_some() && !aborts.iter().any(|_| true) && sh.complete {
+			if sh.trace && sh.last_death.is_some() && !sh.attributed {
 				agg.notes.push(format!(
 					"shard {}: one worker death ({:?}) did not reproduce in the traced re-run",
 					s, sh.last_death
@@ -3459,11 +3475,11 @@ fn parent_main() {
 			v["msg"] = json!(format!("no return within {} ms, reproduced alone in a fresh worker", CASE_BUDGET_MS));
 			agg.add_finding(&sigs, &v, 1);
 		} else {
-			run.inconclusive(&format!("case {} exceeded the case budget once but not when re-run alone", id));
+			inc(&format!("case {} exceeded the case budget once but not when re-run alone", id));
 		}
 	}
 	if hangs.len() > 6 {
-		run.inconclusive(&format!("{} further hang candidates not re-run (time)", hangs.len() - 6));
+		inc(&format!("{} further hang candidates not re-run (time)", hangs.len() - 6));
 	}
 	for (id, how) in aborts.iter().take(6) {
 		let c = make_case(&corpus, &space, run.seed, *id);
@@ -3476,14 +3492,14 @@ fn parent_main() {
 			v["msg"] = json!(format!("worker killed by {} on this case, reproduced alone", how));
 			agg.add_finding(&sigs, &v, 1);
 		} else {
-			run.inconclusive(&format!("case {}: worker death ({}) did not reproduce alone (exit {:?})", id, how, code));
+			inc(&format!("case {}: worker death ({}) did not reproduce alone (exit {:?})", id, how, code));
 		}
 	}
 
 	// ---- verdicts
 	for (sig, fi) in agg.findings.iter() {
 		if fi.best.is_none() {
-			run.inconclusive(&format!("finding {} reported without an example", sig));
+			inc(&format!("finding {} reported without an example", sig));
 			continue;
 		}
 		let b = fi.best.as_ref().unwrap();
@@ -3510,8 +3526,13 @@ fn parent_main() {
 		run.violation(sig, &what, json!({"case_ids": fi.ids, "min": b}));
 	}
 	for n in agg.notes.iter() {
-		run.inconclusive(n);
+		inc(n);
 	}
+	run.require(
+		"worker failures, unconfirmed hangs/aborts, harness errors (must be none)",
+		incs.borrow().is_empty() as u64,
+		1,
+	);
 
 	// ---- evidence
 	for (k, v) in agg.counts.iter() {
@@ -3570,7 +3591,7 @@ fn parent_main() {
 		run.require("socket (Codec::read) cases", cnt("cases.socket"), (2000 / scale).max(5));
 		run.require("honest seeds decoded", cnt("honest.ok"), (100 / scale).max(2));
 		if cnt("honest.unexpected_err") > 0 {
-			run.inconclusive("some honest seeds expected to decode did not (see notes): seed generator out of sync with the tree");
+			inc("some honest seeds expected to decode did not (see notes): seed generator out of sync with the tree");
 		}
 		if stride == 1 {
 			run.require("honest segments validated (Segment::validate ok)", cnt("post.Segment::validate.ok"), 10);
